@@ -264,10 +264,10 @@ fn derived_rep<R: Rep, const N: usize>() {
     core::mem::forget(d);
 }
 
-/// AdjacencyMap on a non-contiguous vertex set: ids from {0, 2, 5} (+ 3 via
+/// AdjacencyMap on a non-contiguous vertex set: ids from {0, 2, 3} (+ 3 via
 /// add_arc), i.e. keys are not 0..order.
 fn map_noncontiguous() {
-    const IDS: [usize; 3] = [0, 2, 5];
+    const IDS: [usize; 3] = [0, 2, 3];
 
     cx::set_vcap(8);
 
@@ -494,21 +494,21 @@ pub fn c02_inherent_adjacency_list_n3_p4() {
     inherent::<AdjacencyList, 3>(4);
 }
 
-// @verif prop=C02 tier=quick fl=f1 role=inherent/adjacency-map t=900 mem=12
+// @verif prop=C02 tier=quick fl=f1 feat=map4 role=inherent/adjacency-map t=900 mem=12
 #[cfg_attr(kani, kani::proof)]
 #[cfg_attr(kani, kani::unwind(10))]
 pub fn c02_inherent_adjacency_map_n3() {
     inherent::<AdjacencyMap, 3>(1);
 }
 
-// @verif prop=C02 tier=quick fl=f1 role=noncontiguous/adjacency-map t=900 mem=12
+// @verif prop=C02 tier=quick fl=f1 feat=map4 role=noncontiguous/adjacency-map t=900 mem=12
 #[cfg_attr(kani, kani::proof)]
 #[cfg_attr(kani, kani::unwind(10))]
 pub fn c02_map_noncontiguous() {
     map_noncontiguous();
 }
 
-// @verif prop=C02 tier=quick fl=f1 role=inherent/weighted t=900 mem=12
+// @verif prop=C02 tier=quick fl=f1 feat=map4 role=inherent/weighted t=900 mem=12
 #[cfg_attr(kani, kani::proof)]
 #[cfg_attr(kani, kani::unwind(10))]
 pub fn c02_weighted_n3() {
@@ -536,7 +536,7 @@ pub fn c02_derived_adjacency_list_n3() {
     derived_rep::<AdjacencyList, 3>();
 }
 
-// @verif prop=C02 tier=thorough fl=f1 role=derived/adjacency-map t=1800 mem=16
+// @verif prop=C02 tier=thorough fl=f1 feat=map4 role=derived/adjacency-map t=1800 mem=16
 #[cfg_attr(kani, kani::proof)]
 #[cfg_attr(kani, kani::unwind(10))]
 pub fn c02_derived_adjacency_map_n3() {
